@@ -1,12 +1,12 @@
 \* C03 quick: pairs of complete versions [epoch:]upstream[-revision]: epoch absent/0/1/01,
-\* revision absent/0/~, upstream <= 2 characters over 0 1 a ~ plus ':' and '-' where D2 allows
-\* them (422 versions, 178 084 pairs)
+\* revision absent/0/~, upstream <= 2 characters over 0 1 ~ plus ':' and '-' where D2 allows
+\* them (292 versions, 85 264 pairs)
 CONSTANTS
   HashOnString = FALSE
   TildeOrderZero = FALSE
   Epochs <- E_few
   Revs <- R_three
-  UpChars = {48, 49, 97, 126}
+  UpChars = {48, 49, 126}
   MaxUp = 2
   Seps = TRUE
   Triples = FALSE
